@@ -18,9 +18,9 @@ def PlainStmts (l : List Node) : Prop := ∀ x ∈ l, PlainStmt x
 theorem PlainStmts.tail {x : Node} {l : List Node} (h : PlainStmts (x :: l)) : PlainStmts l := fun y hy => h y (by simp [hy])
 theorem PlainStmts.head {x : Node} {l : List Node} (h : PlainStmts (x :: l)) : PlainStmt x := h x (by simp)
 
-theorem plain_not_repeat {x : Node} (h : PlainStmt x) : isRepeatStmt x = false := by cases h <;> rfl
+theorem plain_not_repeat {x : Node} (h : PlainStmt x) : isNestStmt x = false := by cases h <;> rfl
 
-theorem plain_any_repeat {l : List Node} (h : PlainStmts l) : l.any isRepeatStmt = false := by
+theorem plain_any_repeat {l : List Node} (h : PlainStmts l) : l.any isNestStmt = false := by
   induction l with
   | nil => rfl
   | cons x l ih => simp only [List.any_cons, plain_not_repeat h.head, ih h.tail, Bool.or_self]
